@@ -481,7 +481,7 @@ func (dec *Decoder) prealloc(count int) int {
 func (dec *Decoder) preallocList(count int, size uintptr) int {
 	const (
 		listFree = 256 << 10
-		small    = 8
+		small    = 16
 	)
 	if count <= small {
 		return count
